@@ -314,6 +314,7 @@ class RefChain:
         self.blocks = {}
         self.order = []          # ids in insertion order
         self._ledger = {}
+        self._idx = {}
         self.ledger_cache = ledger_cache
 
     def add(self, blk):
@@ -332,7 +333,30 @@ class RefChain:
         out.reverse()
         return out
 
+    def _index(self, bid):
+        """ids of bid's ancestors by height (small LRU so that long prefixes stay cheap)"""
+        idx = self._idx.get(bid)
+        if idx is None:
+            blk = self.blocks[bid]
+            pidx = self._idx.get(blk.prev)
+            if pidx is not None and blk.height == len(pidx):
+                idx = pidx + [bid]
+            else:
+                idx = self.ancestors(bid)
+                if any(self.blocks[x].height != n for n, x in enumerate(idx)):
+                    idx = None      # stored heights are inconsistent: fall back to walking
+            if idx is not None:
+                self._idx[bid] = idx
+                if len(self._idx) > 48:
+                    self._idx.pop(next(iter(self._idx)))
+        return idx
+
     def ancestor_at(self, bid, height):
+        idx = self._index(bid)
+        if idx is not None:
+            if not (0 <= height < len(idx)):
+                raise KeyError(height)
+            return self.blocks[idx[height]]
         blk = self.blocks[bid]
         while blk.height > height:
             blk = self.blocks[blk.prev]
